@@ -12,6 +12,7 @@ from ..refmodels.dual import derivative
 
 REL = 1e-12
 PCS = [(-72.2, 653.0), (-102.2, 648.5)]
+STDS = [(60, 14.7), (68.0, 14.696), (60.0, 15.025)]  # default and two other standard-condition bases
 
 
 def close(a, b, rel=REL):
@@ -29,10 +30,18 @@ def eval_water(case):
         viol.append(V("dBw/dp", f"b_water_McCain_dp({T}, {p}) = {got!r}; exact derivative of b_water_McCain = {d!r}",
                       case=case, observed=got, expected=d, tol=REL))
     arr = np.array([p, 2 * p + 1.0])
-    got_a = np.asarray(water.b_water_McCain_dp(T, arr), dtype=float)
-    d2 = derivative(lambda q: water.b_water_McCain(T, q), float(arr[1]))[1]
-    if not (close(got_a[0], d) and close(got_a[1], d2)):
-        viol.append(V("dBw/dp-array", f"array form of b_water_McCain_dp differs from the exact derivative", case=case))
+    keep = arr.copy()
+    d2 = derivative(lambda q: water.b_water_McCain(T, q), float(keep[1]))[1]
+    for attempt in (1, 2):  # the second call sees whatever the first one left in the caller's array
+        got_a = np.asarray(water.b_water_McCain_dp(T + (attempt - 1) * 0.0, arr), dtype=float)
+        if not np.array_equal(arr, keep):
+            viol.append(V("dBw/dp-input-modified", f"b_water_McCain_dp overwrote the caller's pressure array "
+                          f"{keep.tolist()} -> {arr.tolist()}", case=case))
+            break
+        if not (close(got_a[0], d) and close(got_a[1], d2)):
+            viol.append(V("dBw/dp-array", f"array form of b_water_McCain_dp (call {attempt}) differs from the exact "
+                          "derivative", case=case))
+            break
     return {"violations": viol, "evals": 2, "outcome": "water", "key": ("w", T, p)}
 
 
@@ -67,16 +76,16 @@ def eval_oil(case):
         elif not close(float(got), d):
             viol.append(V("dRs/dp", f"dgor_dpressure_Standing at p = {f} p_b = {got!r}; exact derivative of "
                           f"solution_gor_Standing = {d!r}", case=c, observed=float(got), expected=d, tol=REL))
-        for tpc, ppc in PCS:
+        for (tpc, ppc), (t_std, p_std) in itertools.product(PCS, STDS):
             evals += 1
-            co = float(oil.oil_compressibility_Standing(T, p, api, g, gor, tpc, ppc))
+            co = float(oil.oil_compressibility_Standing(T, p, api, g, gor, tpc, ppc, t_std, p_std))
             if p >= pb:
                 want = float(oil.oil_compressibility_undersat_Spivey(T, p, api, g, gor))
                 if not close(co, want, 1e-13):
                     viol.append(V("c_o/undersaturated", f"oil_compressibility_Standing at p = {f} p_b = {co!r}; "
                                   f"undersaturated correlation gives {want!r}", case=c, observed=co, expected=want))
             else:
-                bg = float(gas.b_factor_DAK(T, p, tpc, ppc))
+                bg = float(gas.b_factor_DAK(T, p, tpc, ppc, t_std, p_std))
                 rs = float(oil.solution_gor_Standing(T, p, api, g, gor))
                 dbo = float(oil.db_o_dgor_Standing(T, api, g, rs))
                 drs = float(oil.dgor_dpressure_Standing(T, p, api, g, gor))
@@ -86,7 +95,7 @@ def eval_oil(case):
                 if not any(close(co, w, 1e-12) for w in cands):
                     viol.append(V("c_o/saturated-assembly", f"oil_compressibility_Standing at p = {f} p_b = {co!r}; "
                                   f"(B_g - dB_o/dR_s) dR_s/dp / B from the library's own functions = {cands}",
-                                  case=dict(c, pc=[tpc, ppc]), observed=co, expected=cands, tol=1e-12))
+                                  case=dict(c, pc=[tpc, ppc], std=[t_std, p_std]), observed=co, expected=cands, tol=1e-12))
         if len(viol) > 4:
             break
     return {"violations": viol[:4], "evals": evals, "outcome": "oil", "key": ("o", T, api, g, gor)}
@@ -140,5 +149,5 @@ def run(ctx):
 
 
 def replay(case):
-    case = {k: v for k, v in case.items() if k not in ("p", "frac", "R", "pc")}
+    case = {k: v for k, v in case.items() if k not in ("p", "frac", "R", "pc", "std")}
     return evaluate(case)["violations"]
